@@ -563,8 +563,8 @@ type hop struct {
 type history struct {
 	Spare bool    `json:"spare,omitempty"` // builders are siblings derived from one NewHashKey over a prefix slice with spare capacity
 	BT    int     `json:"bt"`
-	Cs  []cdesc `json:"cs"`
-	Ops []hop   `json:"ops"`
+	Cs    []cdesc `json:"cs"`
+	Ops   []hop   `json:"ops"`
 }
 
 func optB(b []byte) string {
@@ -1041,7 +1041,6 @@ func coqHist(h history, outs []string, tab htab) string {
 	}
 	return fmt.Sprintf("(CHist %s %s)", hxlib.CoqList(cs), hxlib.CoqList(ops))
 }
-
 
 // ------------------------------------------------------------------ sibling keys over a prefix with spare capacity
 
